@@ -900,6 +900,11 @@ func newModel(full bool) *model {
 	S("schedulers=[balance-region,no-such-scheduler]", func(c *sc) { c.Schedulers = sched("balance-region", "no-such-scheduler") })
 	// ---- scheduling: deprecated flag (any outcome, but atomic and durable)
 	S("disable-raft-learner", func(c *sc) { c.DisableLearner = true }, w1)
+	// switches whose default is true, switched off (a zero value that must survive persist and reload)
+	S("switches-off", func(c *sc) {
+		c.EnableJointConsensus, c.EnableCrossTableMerge, c.EnableRemoveDownReplica, c.EnableReplaceOfflineReplica = false, false, false, false
+		c.EnableMakeUpReplica, c.EnableRemoveExtraReplica, c.EnableLocationReplacement = false, false, false
+	}, w1)
 	if full {
 		S("evict-leader,hot-region!,payload", func(c *sc) {
 			c.Schedulers = sched("evict-leader", "hot-region!", "balance-leader")
